@@ -136,3 +136,57 @@ func runStoreClearStress(r *rand.Rand, rounds, ballast int) []Event {
 	wg.Wait()
 	return log
 }
+
+// runStoreAggregate: ONE writer alternates  Merge(16 keys, all with the value g)  and  Clear;  readers call GetAll, Keys
+// and Len all the time.  Every state the writer produces is either empty or holds exactly the 16 keys with one
+// generation value, so that is all an atomic read may ever return (clause aggregateAtomic): a reader that sees some of
+// the keys, or two generations, has observed part of a Merge or a half-cleared store.
+func runStoreAggregate(rounds, readers, keep int) [][]Event {
+	s := flyt.NewSharedStore()
+	var stop atomic.Bool
+	logs := make([][]Event, readers)
+	var wg sync.WaitGroup
+	for g := 0; g < readers; g++ {
+		wg.Add(1)
+		go func(g int) {
+			defer wg.Done()
+			for i := 0; !stop.Load(); i++ {
+				var e Event
+				switch (i + g) % 3 {
+				case 0:
+					m := s.GetAll()
+					gens := map[int]bool{}
+					for _, v := range m {
+						if x, ok := v.(int); ok {
+							gens[x] = true
+						} else {
+							gens[-1] = true
+						}
+					}
+					e = Event{"ev": "aggread", "op": "getall", "n": len(m), "gens": len(gens)}
+				case 1:
+					e = Event{"ev": "aggread", "op": "keys", "n": len(s.Keys()), "gens": 0}
+				default:
+					e = Event{"ev": "aggread", "op": "len", "n": s.Len(), "gens": 0}
+				}
+				// keep the first reads and every read that is not one of the two legal shapes
+				if len(logs[g]) < keep || !(e["n"] == 0 || e["n"] == 16) || e["gens"].(int) > 1 {
+					if len(logs[g]) < 4*keep {
+						logs[g] = append(logs[g], e)
+					}
+				}
+			}
+		}(g)
+	}
+	for r := 1; r <= rounds; r++ {
+		m := map[string]any{}
+		for k := 1; k <= 16; k++ {
+			m[keyName(400+k)] = r
+		}
+		s.Merge(m)
+		s.Clear()
+	}
+	stop.Store(true)
+	wg.Wait()
+	return logs
+}
